@@ -1,5 +1,6 @@
 //! C17 Lines connect their end points and stay on the ideal line
 use egverif::fw::*;
+use egverif::targets::*;
 use embedded_graphics::pixelcolor::BinaryColor;
 use embedded_graphics::prelude::*;
 use embedded_graphics::primitives::{Line, PrimitiveStyleBuilder, StrokeAlignment};
@@ -95,6 +96,28 @@ fn check(c: &Case, obs: &mut Obs) {
         if w == 1 && px != p {
             obs.fail("width-1-equals-points", format!("{} pixels vs {} points", px.len(), p.len()));
         }
+        // the stroke as draw() delivers it: on an unbounded target, and on targets whose bounding box lies just
+        // below / right of the thin line's box (so that only the stroke can reach into them)
+        if major <= 40 {
+            use embedded_graphics::primitives::Rectangle;
+            let bb = line.bounding_box();
+            let below = Rectangle::new(Point::new(bb.top_left.x - 2, bb.top_left.y + bb.size.height as i32), Size::new(bb.size.width + 4, 24));
+            let right = Rectangle::new(Point::new(bb.top_left.x + bb.size.width as i32, bb.top_left.y - 2), Size::new(24, bb.size.height + 4));
+            for tb in [None, Some(below), Some(right)] {
+                let mut t = match tb {
+                    None => RecD::<BinaryColor>::new(),
+                    Some(b) => RecD::<BinaryColor>::with_box(b),
+                };
+                line.into_styled(style).draw(&mut t).unwrap();
+                let keep = |q: &(i64, i64)| tb.map_or(true, |b| b.contains(Point::new(q.0 as i32, q.1 as i32)));
+                let drawn: BTreeSet<(i64, i64)> = t.map.keys().map(|k| (k.0 as i64, k.1 as i64)).filter(|q| keep(q)).collect();
+                let want: BTreeSet<(i64, i64)> = set.iter().copied().filter(|q| keep(q)).collect();
+                obs.class_if(tb.is_some() && !want.is_empty(), "stroke-reaches-a-target-beside-the-thin-line");
+                if drawn != want {
+                    obs.fail("draw-delivers-the-stroke", format!("w={w_al}: target box {:?}: draw() leaves {} pixels inside it, pixels() has {} there", tb.map(|b| rt(&b)), drawn.len(), want.len()));
+                }
+            }
+        }
         if len2 == 0 {
             continue;
         }
@@ -188,11 +211,11 @@ fn main() {
     egverif::fw::main(Prop {
         id: "C17",
         level: "exploration",
-        rule: "every line of the listed finite domain once (every stroke width of the case's list x 3 stroke alignments inside, counter stroked_lines); thin line: first/last point, count, unit major steps, minor steps <= 1, Euclidean distance to the ideal line <= 1/2 (exact integer test); stroked line: superset of the thin line, no duplicates, distance <= w/2+2.5, overshoot <= 1, width at the middle >= w-1 (perpendicular extent of pixel centres whose projection is within 1 px of the midpoint, plus one pixel), width 1 equals points(); f64 with 1e-9 slack in favour of the code",
+        rule: "every line of the listed finite domain once (every stroke width of the case's list x 3 stroke alignments inside, counter stroked_lines); thin line: first/last point, count, unit major steps, minor steps <= 1, Euclidean distance to the ideal line <= 1/2 (exact integer test); stroked line: superset of the thin line, no duplicates, distance <= w/2+2.5, overshoot <= 1, width at the middle >= w-1 (perpendicular extent of pixel centres whose projection is within 1 px of the midpoint, plus one pixel), width 1 equals points(); for lines up to 40 px the same stroke must arrive through draw() on an unbounded target and on targets whose bounding box lies just below / right of the thin line's box; f64 with 1e-9 slack in favour of the code",
         assumptions: &["'random long lines' of the quantifier are replaced by a deterministic boundary-value product", "distance clauses are not asserted for zero-length lines (no ideal line)"],
         parts: |_| vec![PartSpec::new("all", "verif")],
         run_part,
-        required_classes: |_| vec!["zero-length", "vertical", "horizontal", "diagonal", "longer-than-40", "octant-0", "octant-1", "octant-2", "octant-3", "octant-4", "octant-5", "octant-6", "octant-7"],
+        required_classes: |_| vec!["zero-length", "vertical", "horizontal", "diagonal", "longer-than-40", "octant-0", "octant-1", "octant-2", "octant-3", "octant-4", "octant-5", "octant-6", "octant-7", "stroke-reaches-a-target-beside-the-thin-line"],
         crash_is_verdict: false,
     })
 }
